@@ -475,12 +475,42 @@ pub fn record<F: Elem>(cfg: &str, seed: u64, n: usize, out: &mut dyn std::io::Wr
     let mut forced: Option<Value> = None;
     let mut cyc_value: Option<F> = None;
     let mut step = 0usize;
+    // scripted prologue (prime fields with a square-root algorithm): the 2-power roots of unity of low and of maximal order are
+    // the inputs on which Tonelli-Shanks makes its longest jumps (order 2^k needs a jump of s - k - 1 squarings; the shipped
+    // two-adicities go up to 47): load each, ask for the Legendre symbol and the root.
+    let mut script: std::collections::VecDeque<(Option<F>, Value)> = Default::default();
+    if is_prime && F::has_sqrt() && p > BigUint::from(3u32) {
+        let one = BigUint::from(1u32);
+        let mut t = &p - &one; let mut tw = 0u32;
+        while !t.bit(0) { t >>= 1; tw += 1; }
+        let mut g = BigUint::from(2u32);
+        while g.modpow(&((&p - &one) >> 1), &p) == one { g += 1u32; }
+        let root = g.modpow(&t, &p);
+        let mut ks: Vec<u32> = (1..=tw.min(6)).collect();
+        if tw > 6 { ks.push(tw - 1); ks.push(tw); }
+        for k in ks {
+            let w = root.modpow(&(&one << (tw - k)), &p);
+            for v in [w.clone(), (&w * BigUint::from(4u32)) % &p, (&w * &w * &g * &g) % &p] {
+                script.push_back((Some(F::from_coords(&[v])), json!({"op": "load", "d": 1})));
+                script.push_back((None, json!({"op": "legendre", "d": 1, "s": 1})));
+                script.push_back((None, json!({"op": "sqrt", "d": 1})));
+            }
+        }
+    }
     while step < n {
         step += 1;
-        let d = rng.below(K as u64) as usize;
+        let mut d = rng.below(K as u64) as usize;
         let s = rng.below(K as u64) as usize;
         // choose the next event
         let mut choice = rng.below(100);
+        if pending_cyc.is_none() {
+            if let Some((v, e)) = script.pop_front() {
+                d = e["d"].as_u64().unwrap() as usize - 1;
+                if v.is_some() { cyc_value = v; }
+                forced = Some(e);
+                choice = 1000;
+            }
+        }
         if let Some(c) = pending_cyc.take() {
             // the register holds a freshly loaded element of the cyclotomic subgroup: exercise the fast paths on it
             let nl4 = 64 * (1 + rng.below(4));
